@@ -163,6 +163,8 @@ type World struct {
 	Lenient bool            // GetEntityByID matches ignoring case / surrounding blanks / trailing slash
 	ReqTag  string          // prefix of generated request ids
 	NoLog   bool
+	// UserFor names the user a freshly persisted request belongs to (nil = none).
+	UserFor func(reqID, appID string) string
 	// LoginURL builds the URL the browser is sent to after acceptance.
 	LoginURL func(id string) string
 }
@@ -392,6 +394,9 @@ func (w *World) CreateAuthRequest(ctx context.Context, req *samlp.AuthnRequestTy
 	if snap != nil {
 		r.AuthRequestID, r.Issuer, r.Destination = snap.ID, snap.Issuer, snap.Destination
 	}
+	if w.UserFor != nil {
+		r.UserID = w.UserFor(r.ID, appID)
+	}
 	w.mu.Lock()
 	w.requests[r.ID] = r
 	w.mu.Unlock()
@@ -480,5 +485,16 @@ var _ = rsa.PrivateKey{}
 func (w *World) SetApp(appID, entityID string) {
 	w.mu.Lock()
 	w.apps[appID] = entityID
+	w.mu.Unlock()
+}
+
+func (w *World) ForgetRequest(id string) { w.mu.Lock(); delete(w.requests, id); w.mu.Unlock() }
+func (w *World) ForgetApp(appID string)  { w.mu.Lock(); delete(w.apps, appID); w.mu.Unlock() }
+func (w *World) ForgetUser(userID string) {
+	w.mu.Lock()
+	if u := w.users[userID]; u != nil {
+		delete(w.logins, u.Username)
+	}
+	delete(w.users, userID)
 	w.mu.Unlock()
 }
